@@ -337,6 +337,8 @@ def run(ctx, env):
     # R1.4
     n_loops = 0
     for b in sorted(bodies.values(), key=lambda x: x.path):
+        if b.path == PARSE_ROOTS[0]:
+            b = role_body(prog, b.path) or b     # the packet loop, with private step helpers inlined
         for comp in b.sccs():
             n_loops += 1
             ok, why, tag = loop_bounded(an, prog, b, comp)
@@ -910,7 +912,7 @@ def packet_loop_progress(an, prog, b, comp):
     consumed = None
     for blk2, t2, c2 in d.calls():
         if c2 is not None and c2.local and c2.path in VERSION_PARSERS.values():
-            a = peel(an.op(d, t2["args"][-1]))
+            a = peel(an.opx(d, t2["args"][-1]))        # private splitting helpers inlined
             if a[0] == "tfield" and a[2] == 0 and a[1][0] == "ok":
                 src = peel(a[1][1])
                 if src[0] == "call" and src[2] is not None and src[2].local:
